@@ -40,15 +40,150 @@ type descrCtx struct {
 	selReads []selRead // every selector seen: field name, own?
 	visited  map[string]bool
 	// writes `v.F = …` to a captured struct v inside `switch key { case "…": … }`: v.F → the case clauses
-	keyed      map[string]map[*ast.CaseClause]bool
+	keyed      map[string]map[ast.Node]bool
 	keyedLHS   map[string]int // text "v.F" → number of such writes
 	outNotDflt bool           // an output-capable module function is called outside a `default:` clause
 	curStmt    ast.Node
 }
 
+// caseInfo: one branch of a mutually exclusive dispatch on an identifier — the NORMAL FORM of
+// `switch x { case a, b: … default: … }`, `switch { case x == a: … }`, `if x == a || b == x { … } else if … else { … }`
+// and `if slices.Contains([]string{a, b}, x) { … }`: the tag, the constants this branch tests positively
+// (go/types constant values, so named constants are folded), or `dflt` for the default / final else.
 type caseInfo struct {
-	sw *ast.SwitchStmt
-	cc *ast.CaseClause
+	tag    *ast.Ident
+	consts []string
+	dflt   bool
+	branch ast.Node // identity of the branch (its body)
+}
+
+// keyTest reads `x == c`, `c == x`, `a || b` of such tests, `slices.Contains([]T{…}, x)`: tag and constants.
+func keyTest(info *types.Info, e ast.Expr) (tag *ast.Ident, consts []string, ok bool) {
+	constOf := func(x ast.Expr) (string, bool) {
+		if tv, ok := info.Types[x]; ok && tv.Value != nil {
+			return tv.Value.ExactString(), true
+		}
+		return "", false
+	}
+	switch x := stripParens(e).(type) {
+	case *ast.BinaryExpr:
+		switch x.Op {
+		case token.EQL:
+			if id, ok := stripParens(x.X).(*ast.Ident); ok {
+				if v, ok := constOf(x.Y); ok {
+					if _, isConst := constOf(id); !isConst {
+						return id, []string{v}, true
+					}
+				}
+			}
+			if id, ok := stripParens(x.Y).(*ast.Ident); ok {
+				if v, ok := constOf(x.X); ok {
+					return id, []string{v}, true
+				}
+			}
+		case token.LOR:
+			t1, c1, ok1 := keyTest(info, x.X)
+			t2, c2, ok2 := keyTest(info, x.Y)
+			if ok1 && ok2 && info.Uses[t1] == info.Uses[t2] && info.Uses[t1] != nil {
+				return t1, append(c1, c2...), true
+			}
+		}
+	case *ast.CallExpr:
+		if selName(x.Fun) == "slices.Contains" && len(x.Args) == 2 {
+			if cl, ok := x.Args[0].(*ast.CompositeLit); ok {
+				if id, ok := stripParens(x.Args[1]).(*ast.Ident); ok {
+					var cs []string
+					for _, el := range cl.Elts {
+						v, ok := constOf(el)
+						if !ok {
+							return nil, nil, false
+						}
+						cs = append(cs, v)
+					}
+					return id, cs, true
+				}
+			}
+		}
+	}
+	return nil, nil, false
+}
+
+// dispatchBranches marks every node inside a branch of a dispatch with that branch (innermost wins).
+func dispatchBranches(info *types.Info, body ast.Node, out map[ast.Node]caseInfo) {
+	mark := func(b ast.Node, ci caseInfo) {
+		ci.branch = b
+		ast.Inspect(b, func(m ast.Node) bool {
+			if m != nil {
+				out[m] = ci
+			}
+			return true
+		})
+	}
+	isChainElse := map[*ast.IfStmt]bool{}
+	ast.Inspect(body, func(n ast.Node) bool {
+		switch st := n.(type) {
+		case *ast.SwitchStmt:
+			tagID, _ := st.Tag.(*ast.Ident)
+			for _, cl := range st.Body.List {
+				cc := cl.(*ast.CaseClause)
+				blk := &ast.BlockStmt{List: cc.Body, Lbrace: cc.Colon, Rbrace: cc.End()}
+				if cc.List == nil {
+					if tagID != nil {
+						mark(blk, caseInfo{tag: tagID, dflt: true})
+					}
+					continue
+				}
+				var tag *ast.Ident
+				var cs []string
+				ok := true
+				for _, e := range cc.List {
+					if tagID != nil { // switch x { case c: }
+						if tv, has := info.Types[e]; has && tv.Value != nil {
+							tag, cs = tagID, append(cs, tv.Value.ExactString())
+						} else {
+							ok = false
+						}
+					} else { // switch { case x == c: }
+						t, c1, isTest := keyTest(info, e)
+						if !isTest || tag != nil && info.Uses[tag] != info.Uses[t] {
+							ok = false
+						} else {
+							tag, cs = t, append(cs, c1...)
+						}
+					}
+				}
+				if ok && tag != nil {
+					mark(blk, caseInfo{tag: tag, consts: cs})
+				}
+			}
+		case *ast.IfStmt:
+			if isChainElse[st] {
+				return true // handled with the head of its chain
+			}
+			// walk the chain
+			var tag *ast.Ident
+			cur := st
+			for cur != nil {
+				t, cs, ok := keyTest(info, cur.Cond)
+				if !ok || cur.Init != nil || tag != nil && info.Uses[tag] != info.Uses[t] {
+					break
+				}
+				tag = t
+				mark(cur.Body, caseInfo{tag: t, consts: cs})
+				switch e := cur.Else.(type) {
+				case *ast.IfStmt:
+					isChainElse[e] = true
+					cur = e
+				case *ast.BlockStmt:
+					mark(e, caseInfo{tag: t, dflt: true})
+					cur = nil
+				default:
+					cur = nil
+				}
+			}
+		}
+		return true
+	})
 }
 
 type selRead struct {
@@ -563,20 +698,15 @@ func (c *descrCtx) write(env *unitEnv, lhs, rhs ast.Expr, isDelete bool) {
 	}
 	if se, ok := lhs.(*ast.SelectorExpr); ok {
 		if id, ok := se.X.(*ast.Ident); ok && !c.own(env, id) {
-			if ci, ok := env.inCase[c.curStmt]; ok && ci.cc.List != nil {
-				if tag, ok := ci.sw.Tag.(*ast.Ident); ok && c.keyDetermining(env, tag) {
-					lits := true
-					for _, e := range ci.cc.List {
-						if bl, ok := e.(*ast.BasicLit); !ok || bl.Kind != token.STRING {
-							lits = false
-						}
-					}
+			if ci, ok := env.inCase[c.curStmt]; ok && !ci.dflt {
+				if tag := ci.tag; c.keyDetermining(env, tag) {
+					lits := len(ci.consts) > 0
 					if lits {
 						t := id.Name + "." + se.Sel.Name
 						if c.keyed[t] == nil {
-							c.keyed[t] = map[*ast.CaseClause]bool{}
+							c.keyed[t] = map[ast.Node]bool{}
 						}
-						c.keyed[t][ci.cc] = true
+						c.keyed[t][ci.branch] = true
 						c.keyedLHS[t]++
 						c.effs["ownKey:"+id.Name+".<field selected by the key>"] = true
 						return
@@ -600,24 +730,7 @@ func (c *descrCtx) scan(env *unitEnv, body ast.Node) {
 	if env.inCase == nil {
 		env.inCase = map[ast.Node]caseInfo{}
 	}
-	ast.Inspect(body, func(n ast.Node) bool {
-		if sw, ok := n.(*ast.SwitchStmt); ok {
-			if _, ok := sw.Tag.(*ast.Ident); ok {
-				for _, cl := range sw.Body.List {
-					cc := cl.(*ast.CaseClause)
-					for _, st := range cc.Body {
-						ast.Inspect(st, func(m ast.Node) bool {
-							if m != nil {
-								env.inCase[m] = caseInfo{sw, cc}
-							}
-							return true
-						})
-					}
-				}
-			}
-		}
-		return true
-	})
+	dispatchBranches(info, body, env.inCase)
 	ast.Inspect(body, func(n ast.Node) bool {
 		if st, ok := n.(ast.Stmt); ok {
 			if _, isBlock := st.(*ast.BlockStmt); !isBlock {
@@ -746,7 +859,7 @@ func (c *descrCtx) descend(env *unitEnv, callee *unit, call *ast.CallExpr, param
 	if cs := c.d.closure(callee.body, callee, nil); len(kindsOf(cs.feats)) > 0 {
 		for f := range cs.feats {
 			if strings.HasPrefix(f, "out:") {
-				if ci, ok := env.inCase[call]; !ok || ci.cc.List != nil {
+				if ci, ok := env.inCase[call]; !ok || !ci.dflt {
 					own := c.d.closure(callee.body, &unit{key: callee.key, node: callee.node, body: callee.body, lit: callee.lit, decl: callee.decl, pk: callee.pk}, nil)
 					_ = own
 					c.outNotDflt = c.outNotDflt || !c.calleeOnlyForwards(callee)
@@ -863,7 +976,7 @@ func (c *descrCtx) checkReads(units []*unit) {
 // describe returns the Lean term of the body of a site and a comment.
 func (d *deepCtx) describe(s *site, sum *summary) (string, string) {
 	c := &descrCtx{d: d, s: s, effs: map[string]bool{}, bad: map[string]bool{}, visited: map[string]bool{},
-		keyed: map[string]map[*ast.CaseClause]bool{}, keyedLHS: map[string]int{}}
+		keyed: map[string]map[ast.Node]bool{}, keyedLHS: map[string]int{}}
 	info := s.pk.info
 	if id, ok := s.rs.Key.(*ast.Ident); ok && id.Name != "_" {
 		c.keyObj = objOf(info, id)
